@@ -1,5 +1,5 @@
 """The checks, one function per property; REGISTRY maps property id -> function."""
-import json, os, random, hashlib, time
+import json, os, random, hashlib, re, time
 from concurrent.futures import ThreadPoolExecutor
 import verif, build, gen_hash
 
@@ -92,8 +92,50 @@ def hash_job(name, bs):
     return {"name": name, "behaviours": bs, "driver": "hash", "env": {"MAXN": str(maxn)}}
 
 
+def replay_variant(path):
+    """behaviours recorded by the FIPS-build pass carry 'variant=fips' in their '# driver:' line"""
+    return "fips" if "variant=fips" in open(path).read() else "def"
+
+
+def fips_legacy_pass(chk, unit, rng, props, tier):
+    """the deprecated (un-prefixed) and per-family entry points are not gated and must compute the same in a FIPS_MODE build:
+    a slim pass of the unit's behaviours through them on the FIPS variant (the isal_ entry points of non-approved algorithms
+    refuse there, which is C13's subject)."""
+    k = 1 if tier == "quick" else 6
+    if unit == "hash":
+        exe = build.build_driver("hash", HASH_SRCS, variant="fips")
+        jobs = hash_jobs(rng.randrange(1 << 30), 4 * k, fams=["legacy"], rejects=0.1)
+        spec, marker = "TraceHash", "HReset"
+    elif unit == "aes":
+        exe = build.build_driver("aes", AES_SRCS, variant="fips")
+        aj = {}
+        aj.update(gen_aes.gcm_oneshot_behaviours(rng, 14 * k, fams=["legacy"]))
+        aj.update(gen_aes.gcm_stream_jobs(rng, 2 * k, fams=["legacy"]))
+        aj.update(gen_aes.xts_jobs(rng, 4 * k, fams=["legacy"]))
+        aj.update({n: b for n, b in gen_aes.cbc_jobs(rng, 2 * k).items() if "-legacy-" in n})
+        aj.update({n: b for n, b in gen_aes.kexp_jobs(rng, 2 * k).items() if "-legacy-" in n or "-precomp-" in n})
+        jobs = merge_jobs(aj)
+        spec, marker = "TraceAes", "Mark"
+    else:
+        exe = build.build_driver("mh", MH_SRCS, variant="fips", wraps=MH_WRAPS)
+        mj = {}
+        for alg in ("sha1", "sha256", "murmur"):
+            mj.update(gen_mh.mh_jobs(rng, alg, 3 * k, fams=["legacy", "legacy_base", "avx2"]))
+        mj.update({n: [[l + " legacy" if l.startswith("rhmask ") else l for l in b] for b in bs]
+                   for n, bs in gen_mh.rh_jobs(rng, 4 * k).items() if n.endswith("-legacy")})
+        jobs = merge_jobs(mj, key=lambda n: n, driver="mh")
+        spec, marker = "TraceMh", "Mark"
+    for j in jobs:
+        j["name"] = "fips-" + j["name"]
+        j["driver"] = j.get("driver", unit) + " variant=fips"
+    outs = run_jobs(jobs, exe, spec)
+    nb, ne = collect(chk, outs, props, marker=marker)
+    chk.cov["fips_build_legacy_pass"] = {"behaviours": nb, "events": ne}
+    return nb, ne
+
+
 def hash_replay(chk, path, props):
-    exe = build.build_driver("hash", HASH_SRCS)
+    exe = build.build_driver("hash", HASH_SRCS, variant=replay_variant(path))
     lines = [x for x in open(path).read().splitlines() if x and not x.startswith("#")]
     outs = run_jobs([hash_job("replay", [lines])], exe, "TraceHash")
     collect(chk, outs, props)
@@ -174,6 +216,7 @@ def _hash_check(pid, tier, seed, replay, per_quick, per_thorough, rejects, rule_
     jobs = hash_jobs(seed * 7919 + int(pid[1:]), per_quick if tier == "quick" else per_thorough, rejects=rejects)
     outs = run_jobs(jobs, exe, "TraceHash")
     nb, ne = collect(chk, outs, props)
+    fips_legacy_pass(chk, "hash", random.Random(seed * 31 + int(pid[1:])), props, tier)
     _finish_traces(chk, jobs, outs, nb, ne,
                    "behaviour = one manager's history (random + state-class-directed generators, all 28 family instances "
                    "+ isal_/legacy entry points)" + rule_extra + "; evaluations = public-call events validated by TLC "
@@ -212,7 +255,7 @@ def merge_jobs(jobs, key=lambda n: "-".join(n.split("-")[:2]), driver="aes", pre
 def aes_check(pid, tier, seed, replay, make_jobs, rule=None, level="model_checking", props=None, model=None, prelude=""):
     chk = verif.Check(pid, level, tier, seed)
     props = props or {pid}
-    exe = build.build_driver("aes", AES_SRCS)
+    exe = build.build_driver("aes", AES_SRCS, variant=replay_variant(replay) if replay else "def")
     if replay:
         lines = [x for x in open(replay).read().splitlines() if x and not x.startswith("#")]
         outs = run_jobs([{"name": "replay", "behaviours": [lines]}], exe, "TraceAes")
@@ -228,6 +271,8 @@ def aes_check(pid, tier, seed, replay, make_jobs, rule=None, level="model_checki
         model_check(chk, model)
     outs = run_jobs(jobs, exe, "TraceAes")
     nb, ne = collect(chk, outs, props, marker="Mark")
+    if pid in ("C02", "C03", "C04", "C07"):
+        fips_legacy_pass(chk, "aes", rng, props, tier)
     _finish_traces(chk, jobs, outs, nb, ne, rule)
     chk.cov["distinct_nontrivial"] = len({" ".join(b[-1].split()[:4] + b[-1].split()[-8:]) + str(len(b)) + b[0] for j in jobs for b in j["behaviours"]})
     chk.assumptions += ["TLC + Java primitive overrides (self-tested at setup: FIPS 197, SP 800-38A/D, IEEE 1619 vectors)",
@@ -288,7 +333,7 @@ MH_WRAPS = ["_rolling_hash2_run_until"]
 def mh_check(pid, tier, seed, replay, make_jobs, rule, props=None):
     chk = verif.Check(pid, "model_checking", tier, seed)
     props = props or {pid}
-    exe = build.build_driver("mh", MH_SRCS, wraps=MH_WRAPS)
+    exe = build.build_driver("mh", MH_SRCS, wraps=MH_WRAPS, variant=replay_variant(replay) if replay else "def")
     if replay:
         lines = [x for x in open(replay).read().splitlines() if x and not x.startswith("#")]
         outs = run_jobs([{"name": "replay", "behaviours": [lines]}], exe, "TraceMh")
@@ -308,6 +353,7 @@ def mh_check(pid, tier, seed, replay, make_jobs, rule, props=None):
             raise verif.MachineryError("RhImpl_mut must violate ImplEqualsDefinition (model would be vacuous):\n" + out_m[-1500:])
     outs = run_jobs(jobs, exe, "TraceMh")
     nb, ne = collect(chk, outs, props | {"SPEC"}, marker="Mark")
+    fips_legacy_pass(chk, "mh", rng, props, tier)
     _finish_traces(chk, jobs, outs, nb, ne, rule)
     chk.assumptions += ["TLC + Java primitive overrides (self-tested at setup)", "host CPU executes every family"]
     return chk.finish()
@@ -927,6 +973,25 @@ def check_c20(tier, seed, replay=None, selftest=False):
         drv = "hash" if "hmgr" in hdr else "mh" if ("mhinit" in hdr or "rhinit" in hdr) else "aes"
         exe, spec = {"hash": (mix[0][0], "TraceHash"), "aes": (mix[1][0], "TraceAes"), "mh": (mix[2][0], "TraceMh")}[drv]
         mix = [(exe, spec, [hash_job("replay", [lines]) if drv == "hash" else {"name": "replay", "behaviours": [lines]}])]
+    if not replay:
+        # long calls (milliseconds inside one library call): the population the signal storm of the second execution can hit
+        rng = random.Random(seed * 131 + 20)
+        lj = {}
+        for alg in ("sha1", "sha256", "murmur"):
+            for fam in gen_mh.MH_FAMS[:5]:
+                total = (2 << 20) + rng.randrange(5000)
+                lj["mhlong-%s-%s" % (alg, fam)] = [gen_mh.mh_behaviour(rng, alg, fam, total, [total - 777, 777])]
+        mix.append((mix[3][0], "TraceMh", merge_jobs(lj, key=lambda n: "-".join(n.split("-")[:2]), driver="mh")))
+        hl = []
+        for alg in gen_hash.FAMS:
+            for fam in gen_hash.FAMS[alg]:
+                L = gen_hash.lanes(alg, fam)
+                b = ["hmgr %s %s %d" % (alg, fam, L)]
+                for c in range(L):
+                    b.append("hsub %d 3 %d %d %d e" % (c, 7000 + c, c * 4099, (1 << 20) + 64 * c + c))
+                b += ["hdrain %d" % (L + 4), "hend"]
+                hl.append(hash_job("hlong-%s-%s" % (alg, fam), [b]))
+        mix.append((mix[0][0], "TraceHash", hl))
     seeds = (1000 + seed, 2000 + 7 * seed)
     nb = ne = 0
     alljobs = []
@@ -940,7 +1005,9 @@ def check_c20(tier, seed, replay=None, selftest=False):
         traces = []
         for k, hs in enumerate(seeds):
             tr = os.path.join(d, "t%d.ndjson" % k)
-            rc, err = verif.run_driver(exe, "hidden %d\n" % hs + text, tr)
+            # the second execution also runs under a storm of asynchronous signals (frames land below the red zone of whatever
+            # stack is current, at instants unrelated to the behaviour)
+            rc, err = verif.run_driver(exe, "hidden %d\n" % hs + ("storm 61\n" if k == 1 else "") + text, tr)
             if rc:
                 raise verif.MachineryError("driver failed in twin run: " + err[-500:])
             traces.append(tr)
